@@ -101,10 +101,16 @@ def rev_iter(ctx, rule):
     ctx.check(len(gets) == 2 and not [1 for bi, t in q.calls_to(b, "Index::index")], rule, fn, "non-panicking-slices", "the line is sliced only with the non-panicking str::get", detail=str(gets))
     ctx.check(any(q.same_test(s, "Le(str::len(var:(&str, usize, usize).0),var:usize)") for s in sw), rule, fn, "out-of-range", "an offset at or past the end of the line yields no text")
     prev = [q.shape(b.expr_of_call(t)) for bi, t in q.calls_to(b, "types::SourceMap::get_token")]
-    ctx.check(prev == ["SourceMap::get_token(%s.sm,Sub(%s.idx,1))" % (TOK, TOK)], rule, fn, "prev-token", "the next element is the token with the preceding index of the same map", detail=str(prev))
+    CS = "usize::checked_sub(%s.idx,1)" % TOK
+    checked = prev == ["SourceMap::get_token(%s.sm,try(%s))" % (TOK, CS)]  # `if let Some(p) = idx.checked_sub(1)`: guard and subtraction in one
+    ctx.check(checked or prev == ["SourceMap::get_token(%s.sm,Sub(%s.idx,1))" % (TOK, TOK)], rule, fn, "prev-token", "the next element is the token with the preceding index of the same map", detail=str(prev))
     for bi, t in q.calls_to(b, "types::SourceMap::get_token"):
         conds = [f for f in q.facts_at(b, bi, {}) if f.op in ("Lt", "Le", "Eq", "Ne", "true", "false")]
-        ctx.check([f.key() for f in conds] in ([("Lt", "0", "%s.idx" % TOK)], [("Ne", "0", "%s.idx" % TOK)], [("Le", "1", "%s.idx" % TOK)]), rule, fn, "prev-token:whenever-idx>0",
+        if checked:
+            ok = not conds and has_fact(b, bi, {}, *opt_fact("some", CS))
+        else:
+            ok = [f.key() for f in conds] in ([("Lt", "0", "%s.idx" % TOK)], [("Ne", "0", "%s.idx" % TOK)], [("Le", "1", "%s.idx" % TOK)])
+        ctx.check(ok, rule, fn, "prev-token:whenever-idx>0",
                   "the walk continues to the preceding token whenever there is one (idx > 0, nothing stricter), so token 0 is reached", ctx.site(b, bi), detail=str(conds))
     al = [q.shape(b.expr_of_call(t)) for bi, t in b.calls() if q.nice(t.get("callee")) == "Option::and_then"]
     ctx.check(any(c.endswith("fn:js_identifiers::get_javascript_token)") for c in al), rule, fn, "token-text", "the token's text is the identifier found at that byte offset")
